@@ -168,6 +168,9 @@ class AirTouchSocket(Generic[comms.Hdr]):
     async def open_socket(self) -> None:
         """Open the socket to the AirTouch."""
         if not self.is_open:
+            # Messages left over from before the socket was closed belong to
+            # that session and must not be sent in this one.
+            self._message_queue.clear()
             self._schedule(self._connect())
             self.is_open = True
 
